@@ -156,8 +156,6 @@ pub mod pair {
         pair_harness!(f64_u64, f64, u64, false, 0);
         pair_harness!(bool_u8, bool, u8, false, 0);
         pair_harness!(isize_i64, isize, i64, true, 0);
-        pair_harness!(u32_vec_u32, u32, Vec<u32>, false, 1);
-        pair_harness!(u32_box_u32, u32, Box<u32>, true, 0);
         pair_harness!(u8_opt_u8, u8, Option<u8>, false, 0);
     }
     /// Out of reach here (timeout 600 s / OOM): pairs whose *saved* type has a schema of depth >= 2
@@ -166,6 +164,8 @@ pub mod pair {
     pub mod x {
         use super::*;
         pair_harness!(opt_u32_u32, Option<u32>, u32, false, 0);
+        pair_harness!(u32_vec_u32, u32, Vec<u32>, false, 1);
+        pair_harness!(u32_box_u32, u32, Box<u32>, true, 0);
         pair_harness!(vec_u32_u32, Vec<u32>, u32, false, 1);
         pair_harness!(arr2_arr3, [u16; 2], [u16; 3], false, 0);
         pair_harness!(arr2_arr2, [u16; 2], [u16; 2], true, 0);
